@@ -371,6 +371,47 @@ func c10ExtractTxFsHooks(x *ExtractCtx) error {
 		return err
 	}
 	fmt.Fprintf(L, "/-- WithTx, top to bottom. -/\ndef withTxSkeleton : List String := %s\n\n", LeanStrList(wk))
+	// which controller's list does each registration method append to?
+	routing, roots := []string{}, []string{}
+	for _, m := range []string{"OnPreCommit", "OnAfterCommit", "OnRollback"} {
+		fd := FindFunc(tf, "TxController", m)
+		if fd == nil {
+			return fmt.Errorf("TxController.%s not found", m)
+		}
+		x.Note("TxController."+m, fd)
+		appends := 0
+		var bad error
+		ast.Inspect(fd.Body, func(n ast.Node) bool {
+			as, ok := n.(*ast.AssignStmt)
+			if !ok || len(as.Lhs) != 1 || len(as.Rhs) != 1 {
+				return true
+			}
+			lhs := strings.Join(strings.Fields(x.Src(as.Lhs[0])), "")
+			rhs := strings.Join(strings.Fields(x.Src(as.Rhs[0])), "")
+			if call, ok := as.Rhs[0].(*ast.CallExpr); ok {
+				if id, ok := call.Fun.(*ast.Ident); ok && id.Name == "append" {
+					appends++
+					if len(call.Args) != 2 || strings.Join(strings.Fields(x.Src(call.Args[0])), "") != lhs || x.Src(call.Args[1]) != "fn" {
+						bad = fmt.Errorf("%s: unrecognised append %s = %s", m, lhs, rhs)
+					}
+					routing = append(routing, m+" "+lhs)
+					return true
+				}
+			}
+			if lhs == "root" {
+				roots = append(roots, m+" root:="+rhs)
+			}
+			return true
+		})
+		if bad != nil {
+			return bad
+		}
+		if appends != 1 {
+			return fmt.Errorf("%s: expected exactly one append, found %d", m, appends)
+		}
+	}
+	fmt.Fprintf(L, "/-- TxController.OnPreCommit / OnAfterCommit / OnRollback: the list each method appends to. -/\ndef hookRouting : List String := %s\n\n", LeanStrList(routing))
+	fmt.Fprintf(L, "/-- What `root` is in those methods. -/\ndef hookRoutingRoot : List String := %s\n\n", LeanStrList(roots))
 	fmt.Fprintf(L, "end Pithos.Gen.TxFsHooks\n")
 	return nil
 }
